@@ -34,6 +34,10 @@ impl View {
     }
     /// a customer message enters the merchant's view: first compare each of its atoms with everything seen earlier
     fn customer_message<T: Serialize>(&mut self, what: &str, v: &T, exempt: &dyn Fn(&str) -> bool, secrets: &[Seen], revealed_by_design: &dyn Fn(&str, &str) -> bool) {
+        self.customer_message_opt(what, v, exempt, secrets, revealed_by_design, true)
+    }
+    /// `record = false`: a what-if message (e.g. closing from an intermediate stage) that does not stay in the view
+    fn customer_message_opt<T: Serialize>(&mut self, what: &str, v: &T, exempt: &dyn Fn(&str) -> bool, secrets: &[Seen], revealed_by_design: &dyn Fn(&str, &str) -> bool, record: bool) {
         let at = atoms::atoms_of(v);
         let mut differ = vec![];
         let mut n_pairs = 0usize;
@@ -82,7 +86,9 @@ impl View {
             }
         }
         eng::sample(json!({"message": what, "atoms": at.len(), "pairs_compared": n_pairs}));
-        self.add(what, v);
+        if record {
+            self.add(what, v);
+        }
     }
 }
 
@@ -112,6 +118,19 @@ fn masks(view: &View, what: &str, c: Scalar, pairs: Vec<(String, Scalar, Scalar)
             }
         }
     }
+}
+
+/// the customer may stop and close at any stage: the closing message it would send from a copy of the state
+fn what_if_close<S: Serialize + serde::de::DeserializeOwned>(view: &mut View, what: &str, state: &S, rng: &SeedRng, close: impl FnOnce(S, &mut SeedRng) -> ClosingMessage, lock_path: &str) {
+    let copy: S = decode(&atoms::layout(state).bytes).expect("copy of the customer state");
+    let secrets = secrets_of(what, state);
+    let mut r = rng.clone();
+    sx::set_label("cust:close");
+    let cm = close(copy, &mut r);
+    let exempt = |p: &str| p == "close_state.channel_id";
+    let lp = lock_path.to_string();
+    let reveal = move |a: &str, s: &str| a == "close_state.revocation_lock" && s.ends_with(&lp);
+    view.customer_message_opt(what, &cm, &exempt, &secrets, &reveal, false);
 }
 
 fn last_challenge(label: &str) -> Scalar {
@@ -156,11 +175,13 @@ fn history(seed: u64, payments: usize) {
         view.add(&format!("{}.closing_signature", tag), &closing);
         sx::set_label("cust:complete");
         let inactive = req.complete(closing, &w.cust).ok().expect("complete");
+        what_if_close(&mut view, &format!("{}.close_from_inactive", tag), &inactive, &rng, |s, r| s.close(r), "state.revocation_pair.lock");
         sx::set_label("merch:activate");
         let pt = w.merchant.activate(&mut rng, vbs);
         view.add(&format!("{}.pay_token", tag), &pt);
         sx::set_label("cust:activate");
         let mut ready = inactive.activate(pt, &w.cust).ok().expect("activate");
+        what_if_close(&mut view, &format!("{}.close_from_ready", tag), &ready, &rng, |s, r| s.close(r), "state.revocation_pair.lock");
         for k in 0..payments {
             let amt = if k == 0 { 7 } else { -3 };
             sx::set_label("cust:start");
@@ -195,12 +216,14 @@ fn history(seed: u64, payments: usize) {
             sx::set_label("merch:allow_payment");
             let (unrev, closing2) = w.merchant.allow_payment(&mut rng, amount(amt), &start.nonce, start.pay_proof, &pctx).expect("allow");
             view.add(&format!("{}.pay{}.closing_signature", tag, k), &closing2);
+            what_if_close(&mut view, &format!("{}.pay{}.close_from_started", tag, k), &started, &rng, |s, r| s.close(r), "old_state.revocation_pair.lock");
             sx::set_label("cust:lock");
             let (locked, lockmsg) = started.lock(closing2, &w.cust).ok().expect("lock");
             let secrets = secrets_of("locked", &locked);
             // by design: the lock message reveals the old revocation pair and its commitment's blinding factor (none of them is in `locked`)
             view.customer_message(&format!("{}.pay{}.lock_message.pair", tag, k), &lockmsg.revocation_pair, &none, &secrets, &|_, _| false);
             view.customer_message(&format!("{}.pay{}.lock_message.blinding_factor", tag, k), &lockmsg.revocation_lock_blinding_factor, &none, &secrets, &|_, _| false);
+            what_if_close(&mut view, &format!("{}.pay{}.close_from_locked", tag, k), &locked, &rng, |s, r| s.close(r), "state.revocation_pair.lock");
             sx::set_label("merch:complete_payment");
             let pt2 = unrev.complete_payment(&mut rng, &lockmsg.revocation_pair, &lockmsg.revocation_lock_blinding_factor).ok().expect("complete");
             view.add(&format!("{}.pay{}.pay_token", tag, k), &pt2);
